@@ -36,7 +36,7 @@ bool Cast_Floating_Point_Expression<FP_Interval_Type, FP_Format>
     return false;
   }
   FP_Linear_Form rel_error;
-  relative_error(result, rel_error);
+  this->relative_error(result, rel_error);
   result += rel_error;
   result += this->absolute_error;
   return !this->overflows(result);
